@@ -95,6 +95,35 @@ def _derive_pattern(rnd: random.Random, path: str, is_dir: bool) -> str:
     return "/".join(parts[:-1] + ["*"]) if len(parts) > 1 else name + "*"
 
 
+def _glob_package(rnd: random.Random, files: dict[str, str], base: str, pn: str, frm: str | None) -> str:
+    """a `packages` include written as a glob below (or at the level of) the package directory `base`: non-recursive globs that
+    match a mix of files and non-empty sub-directories, single-match and multi-match, `?`/`[..]` forms, recursive forms"""
+    subs = sorted({p[len(base) + 1:].split("/")[0] for p in files if p.startswith(base + "/") and "/" in p[len(base) + 1:]})
+    subs = [d for d in subs if d != "__pycache__"]
+    if not subs:
+        files[f"{base}/sub/__init__.py"] = _text(rnd, "sub")
+        files[f"{base}/sub/a.py"] = _text(rnd, "a")
+        files[f"{base}/sub/data.json"] = "{}"
+        subs = ["sub"]
+    d = rnd.choice(subs)
+    k = rnd.random()
+    if k < 0.30:
+        return pn + "/*"
+    if k < 0.40:
+        return pn + rnd.choice(["/?*", "/[!.]*", "/[a-z_]*"])
+    if k < 0.52:
+        return f"{pn}/{d[:1]}*"                 # files and directories starting alike; sometimes only the directory
+    if k < 0.60:
+        return f"{pn}/{d}"                       # exactly one sub-directory
+    if k < 0.66:
+        return f"{pn}/{d[:-1]}?" if len(d) > 1 else f"{pn}/{d}"
+    if k < 0.74 and frm not in (None, "."):
+        return rnd.choice(["*", "*/", pn[:1] + "*"])
+    if k < 0.82:
+        return pn[:2] + "*"
+    return rnd.choice([pn + "/**/*.py", pn + "/**/*", pn + "/*.py"])
+
+
 def _hits_pkginfo(pat: str) -> bool:
     """would this pattern select a root-level file named PKG-INFO?  (kept out of wheel-visible tables; see KNOWN deviations)"""
     comps = [c for c in pat.split("/") if c not in ("", ".")]
@@ -109,7 +138,7 @@ def generate(rnd: random.Random) -> dict[str, Any]:
     files: dict[str, str] = {}
     dirs: list[str] = []
     rich = rnd.choice([0.2, 0.6, 0.9])
-    layout = rnd.choice(["flat", "flat", "src", "src", "module", "src-module", "custom", "custom"])
+    layout = rnd.choice(["flat", "flat", "src", "src", "module", "src-module", "custom", "custom", "custom"])
     packages: list[dict[str, Any]] | None = None
     pkg_dirs: list[str] = []
     if layout == "flat":
@@ -118,11 +147,18 @@ def generate(rnd: random.Random) -> dict[str, Any]:
     elif layout == "src":
         _fill_package(rnd, files, f"src/{mod}", rnd.randint(0, 2), stub, rich)
         pkg_dirs.append(f"src/{mod}")
-    elif layout == "module":
+    if layout in ("flat", "src") and not stub and rnd.random() < 0.3:
+        base = pkg_dirs[0]
+        frm = "src" if layout == "src" else None
+        e0: dict[str, Any] = {"include": _glob_package(rnd, files, base, mod, frm)}
+        if frm:
+            e0["from"] = frm
+        packages = [e0]
+    if layout == "module":
         files[f"{mod}.py"] = _text(rnd, mod)
     elif layout == "src-module":
         files[f"src/{mod}.py"] = _text(rnd, mod)
-    else:
+    elif layout == "custom":
         packages = []
         for _ in range(rnd.randint(1, 3)):
             pn = rnd.choice([mod, "extra", "other_pkg", "tests", "tools"])
@@ -135,10 +171,14 @@ def generate(rnd: random.Random) -> dict[str, Any]:
             if kind < 0.12:
                 files[base + ".py"] = _text(rnd, pn)
                 inc = pn + ".py"
-            else:
+            elif kind < 0.5:
                 _fill_package(rnd, files, base, rnd.randint(0, 2), False, rich)
                 pkg_dirs.append(base)
-                inc = pn if kind < 0.75 else rnd.choice([pn + "/**/*.py", pn + "/**/*", pn + "/*.py", pn + "/*", pn[:2] + "*"])
+                inc = pn
+            else:
+                _fill_package(rnd, files, base, rnd.randint(1, 2), False, rich)
+                pkg_dirs.append(base)
+                inc = _glob_package(rnd, files, base, pn, frm)
             e: dict[str, Any] = {"include": inc, "_dir": base}
             if frm is not None:
                 e["from"] = frm
